@@ -90,50 +90,63 @@ def lake_build(targets, timeout=1500):
         return p.returncode == 0, log, time.time() - t0
 
 
-def lean_sources_digest():
+def module_closure(modules):
+    """source files of the given Lean modules and of everything they import from this project"""
+    seen, todo = {}, list(modules)
+    while todo:
+        m = todo.pop()
+        if m in seen:
+            continue
+        path = os.path.join(LEAN_DIR, *m.split(".")) + ".lean"
+        if not os.path.exists(path):
+            continue
+        seen[m] = path
+        txt = re.sub(r"/-.*?-/", "", open(path).read(), flags=re.S)
+        for mm in re.finditer(r"^(?:public\s+)?import\s+(.+)$", txt, flags=re.M):
+            for dep in mm.group(1).split():
+                if dep.startswith("YModel") or dep.startswith("YProofs"):
+                    todo.append(dep)
+    return seen
+
+
+def lean_sources_digest(modules):
     h = hashlib.sha256()
-    for root, dirs, files in os.walk(LEAN_DIR):
-        dirs[:] = sorted(d for d in dirs if d != ".lake")
-        for fn in sorted(files):
-            if fn.endswith(".lean") or fn.endswith(".toml"):
-                p = os.path.join(root, fn)
-                h.update(p.encode())
-                h.update(open(p, "rb").read())
+    files = module_closure(modules)
+    for m in sorted(files):
+        h.update(m.encode())
+        h.update(open(files[m], "rb").read())
+    for extra in ("lakefile.toml", "Audit.lean"):
+        h.update(open(os.path.join(LEAN_DIR, extra), "rb").read())
     return h.hexdigest()
 
 
-def scan_forbidden():
-    """grep the Lean sources for sorry/axiom/native_decide… outside comments."""
+def scan_forbidden(modules):
+    """grep the Lean sources the given modules depend on for sorry/axiom/native_decide… outside comments."""
     hits = []
-    for root, dirs, files in os.walk(LEAN_DIR):
-        dirs[:] = [d for d in dirs if d != ".lake"]
-        for fn in files:
-            if not fn.endswith(".lean"):
-                continue
-            p = os.path.join(root, fn)
-            txt = open(p).read()
-            # strip block comments (incl. doc comments) and line comments
-            txt2 = re.sub(r"/-.*?-/", lambda m: "\n" * m.group(0).count("\n"), txt, flags=re.S)
-            for i, line in enumerate(txt2.splitlines(), 1):
-                line = line.split("--", 1)[0]
-                if fn == "Audit.lean":
-                    continue
-                if FORBIDDEN.search(line):
-                    hits.append(f"{os.path.relpath(p, VERIF)}:{i}: {line.strip()[:100]}")
+    for m, p in sorted(module_closure(modules).items()):
+        txt = open(p).read()
+        # strip block comments (incl. doc comments) and line comments
+        txt2 = re.sub(r"/-.*?-/", lambda mm: "\n" * mm.group(0).count("\n"), txt, flags=re.S)
+        for i, line in enumerate(txt2.splitlines(), 1):
+            line = line.split("--", 1)[0]
+            if FORBIDDEN.search(line):
+                hits.append(f"{os.path.relpath(p, VERIF)}:{i}: {line.strip()[:100]}")
     return hits
 
 
 def audit(modules, timeout=900):
     """Run Audit.lean on property modules: {module: [(thm, axioms)…]}. Cached on source digest."""
     cache_path = os.path.join(LEAN_DIR, ".lake", "audit_cache.json")
-    digest = lean_sources_digest()
-    cache = {}
     try:
-        cache = json.load(open(cache_path))
+        allcache = json.load(open(cache_path))
     except Exception:
-        cache = {}
-    if cache.get("digest") != digest:
-        cache = {"digest": digest, "mods": {}}
+        allcache = {}
+    cache = {"mods": {}}
+    digests = {m: lean_sources_digest([m]) for m in modules}
+    for m in modules:
+        ent = allcache.get(m)
+        if ent and ent.get("digest") == digests[m]:
+            cache["mods"][m] = ent["thms"]
     todo = [m for m in modules if m not in cache["mods"]]
     if todo:
         with _Lock("lake"):
@@ -151,7 +164,15 @@ def audit(modules, timeout=900):
             elif "count" in o:
                 cache["mods"].setdefault(o["module"], [])
         try:
-            json.dump(cache, open(cache_path, "w"))
+            try:
+                allcache = json.load(open(cache_path))   # re-read: other checks may have written meanwhile
+            except Exception:
+                allcache = {}
+            for m in todo:
+                allcache[m] = {"digest": digests[m], "thms": cache["mods"].get(m, [])}
+            tmp = cache_path + f".{os.getpid()}.tmp"
+            json.dump(allcache, open(tmp, "w"))
+            os.replace(tmp, cache_path)
         except Exception:
             pass
     return {m: cache["mods"].get(m, []) for m in modules}
@@ -409,7 +430,7 @@ def run_check(pid, tier, seed, prop, replay=None):
             ctx.fail("proof", f"build:{t}", f"proof obligation broken: `lake build {t}` fails:\n{errs}")
 
     # 3. audit -------------------------------------------------------------------------------
-    forb = scan_forbidden()
+    forb = scan_forbidden(targets + ["YModel.Main." + pid])
     if forb:
         ctx.fail("audit", "audit:forbidden-token", "forbidden token in Lean sources: " + "; ".join(forb[:5]))
     thms = []
